@@ -66,8 +66,20 @@ def gen_oil():
     return m
 
 
-GENERATORS = {"water": gen_water, "gas": gen_gas, "oil": gen_oil}
-DEPS = {"water": [], "gas": [], "oil": ["gas"]}
+def gen_reservoir():
+    m = P.Module(os.path.join(SRC, "flow", "reservoir.py"), "Gen_reservoir")
+    _fn(m, "_build_matrix", emit_name="build_matrix", kinds={"kt_h2": "list"})
+    # fvf_scale of both classes and the flux stencil of recovery_factor
+    tr = P.Tr(m, m.method("IdealReservoir", "fvf_scale"), emit_name="fvf_scale_ideal",
+              self_fields=["pressure_fracface", "pressure_initial"])
+    tr.translate()
+    tr = P.Tr(m, m.method("SinglePhaseReservoir", "fvf_scale"), emit_name="fvf_scale_single", self_fields=[])
+    tr.translate()
+    return m
+
+
+GENERATORS = {"water": gen_water, "gas": gen_gas, "oil": gen_oil, "reservoir": gen_reservoir}
+DEPS = {"water": [], "gas": [], "oil": ["gas"], "reservoir": []}
 
 
 def module(name):
